@@ -50,6 +50,91 @@ func callbackOf(f *ssa.Function) (string, string) {
 	return "", ""
 }
 
+// isHelper: a method of the listener that is not a callback.
+func isHelper(f *ssa.Function) bool {
+	if f == nil || f.Signature.Recv() == nil || !strings.Contains(f.Signature.Recv().Type().String(), "OpenFgaDslListener") {
+		return false
+	}
+	k, _ := callbackOf(f)
+	return k == "" && len(f.Blocks) > 0
+}
+
+type effStore struct {
+	st *ssa.Store
+	at ssa.Instruction // position in the queried function: the store itself or the call that leads to it
+}
+
+// helperCalls: the calls in m of listener helpers on the same receiver (transitively, attributed to the call in m).
+func helperCalls(m *ssa.Function) map[ssa.CallInstruction][]*ssa.Function {
+	out := map[ssa.CallInstruction][]*ssa.Function{}
+	if len(m.Params) == 0 {
+		return out
+	}
+	for _, b := range m.Blocks {
+		for _, in := range b.Instrs {
+			ci, ok := in.(ssa.CallInstruction)
+			if !ok {
+				continue
+			}
+			h := ci.Common().StaticCallee()
+			if !isHelper(h) || len(ci.Common().Args) == 0 || ci.Common().Args[0] != ssa.Value(m.Params[0]) {
+				continue
+			}
+			seen := map[*ssa.Function]bool{h: true}
+			work := []*ssa.Function{h}
+			for len(work) > 0 {
+				cur := work[0]
+				work = work[1:]
+				out[ci] = append(out[ci], cur)
+				for _, hb := range cur.Blocks {
+					for _, hin := range hb.Instrs {
+						if c2, ok := hin.(ssa.CallInstruction); ok {
+							if h2 := c2.Common().StaticCallee(); isHelper(h2) && !seen[h2] && len(c2.Common().Args) > 0 && c2.Common().Args[0] == ssa.Value(cur.Params[0]) {
+								seen[h2] = true
+								work = append(work, h2)
+							}
+						}
+					}
+				}
+			}
+		}
+	}
+	return out
+}
+
+// helperPath renders a receiver-relative path with the helper's own receiver name.
+func helperPath(h *ssa.Function, path string) string {
+	if len(h.Params) > 0 && strings.HasPrefix(path, "l.") && h.Params[0].Name() != "l" {
+		return h.Params[0].Name() + path[1:]
+	}
+	return path
+}
+
+// effStores: the stores to path that running m can perform: its own and those of the helpers it calls.
+func effStores(m *ssa.Function, path string) []effStore {
+	var out []effStore
+	for _, st := range storesTo(m, path) {
+		out = append(out, effStore{st, st})
+	}
+	for ci, hs := range helperCalls(m) {
+		for _, h := range hs {
+			for _, st := range storesTo(h, helperPath(h, path)) {
+				out = append(out, effStore{st, ci.(ssa.Instruction)})
+			}
+		}
+	}
+	return out
+}
+
+// mayStores: like storesTo, including the stores of helpers (positions are not comparable with m's blocks).
+func mayStores(m *ssa.Function, path string) []*ssa.Store {
+	var out []*ssa.Store
+	for _, e := range effStores(m, path) {
+		out = append(out, e.st)
+	}
+	return out
+}
+
 func (t *TypeState) reach(from string) map[string]bool {
 	seen := map[string]bool{}
 	stack := []string{from}
@@ -89,7 +174,7 @@ func (t *TypeState) NonNil(v ssa.Value, at ssa.Instruction) (bool, string) {
 	}
 	kind, rule := callbackOf(at.Parent())
 	if kind == "" {
-		return false, ""
+		return t.nonNilInHelper(v, at)
 	}
 	path := e5path.AccessPath(v)
 	// accessor on ctx
@@ -125,18 +210,78 @@ func (t *TypeState) NonNil(v ssa.Value, at ssa.Instruction) (bool, string) {
 	return false, ""
 }
 
+// nonNilInHelper: a load of a listener field inside a helper method: the field is non-nil at every call
+// of the helper from a callback (by the callback's own facts, not overwritten before the call) and the
+// helper does not overwrite it before the use.
+func (t *TypeState) nonNilInHelper(v ssa.Value, at ssa.Instruction) (bool, string) {
+	h := at.Parent()
+	if !isHelper(h) {
+		return false, ""
+	}
+	if _, isLoad := v.(*ssa.UnOp); !isLoad {
+		return false, ""
+	}
+	path := e5path.AccessPath(v)
+	recv := h.Params[0].Name()
+	if !strings.HasPrefix(path, recv+".") {
+		return false, ""
+	}
+	lpath := "l" + path[len(recv):]
+	if t.killedBefore(at, path) {
+		return false, ""
+	}
+	sites, why := 0, ""
+	for _, m := range t.Methods {
+		kind, rule := callbackOf(m)
+		if kind == "" {
+			continue
+		}
+		for ci, hs := range helperCalls(m) {
+			called := false
+			for _, x := range hs {
+				if x == h {
+					called = true
+				}
+			}
+			if !called {
+				continue
+			}
+			sites++
+			cs := ci.(ssa.Instruction)
+			ok, w := t.fieldAtEntry(kind, rule, lpath)
+			if ok && t.killedBefore(cs, lpath) {
+				ok = false
+			}
+			if !ok {
+				if ok2, w2 := t.flagCorrelation(cs, lpath); ok2 {
+					ok, w = true, w2
+				}
+			}
+			if !ok {
+				return false, ""
+			}
+			why = w
+		}
+	}
+	if sites == 0 {
+		return false, ""
+	}
+	return true, why + " — at every call of " + h.Name()
+}
+
 // killedBefore: a store to the path or one of its prefixes may execute before `at` in its function.
 func (t *TypeState) killedBefore(at ssa.Instruction, path string) bool {
 	f := at.Parent()
 	parts := strings.Split(path, ".")
 	for i := 2; i <= len(parts); i++ {
 		prefix := strings.Join(parts[:i], ".")
-		for _, st := range storesTo(f, prefix) {
+		for _, e := range effStores(f, prefix) {
+			st := e.st
 			if ok, _ := t.A.nonNil(st.Val, st, 1); ok && prefix == path {
 				continue
 			}
-			sb, ub := st.Block(), at.Block()
-			if sb == ub && instrIndex(st) >= instrIndex(at) && !loopsBack(sb) {
+			sb, ub := e.at.Block(), at.Block()
+			if sb == ub && instrIndex(e.at) >= instrIndex(at) && !loopsBack(sb) {
 				continue
 			}
 			if reaches(sb, ub) {
@@ -424,7 +569,7 @@ func (t *TypeState) killerBetween(r, kind, rule, path string, setter *ssa.Functi
 		}
 		for i := 2; i <= len(parts); i++ {
 			prefix := strings.Join(parts[:i], ".")
-			for _, st := range storesTo(m, prefix) {
+			for _, st := range mayStores(m, prefix) {
 				if prefix == path {
 					if ok, _ := t.A.nonNil(st.Val, st, 1); ok {
 						continue
@@ -521,7 +666,7 @@ func (t *TypeState) enterExitCorrelation(at ssa.Instruction, rule, acc string) (
 		// (2) non-nil stores to F only in Enter(rule), each dominated by ctx.acc() != nil
 		okStores, n := true, 0
 		for name, m := range t.Methods {
-			for _, st := range storesTo(m, field) {
+			for _, st := range mayStores(m, field) {
 				if cst, isConst := st.Val.(*ssa.Const); isConst && cst.IsNil() {
 					continue
 				}
@@ -625,7 +770,7 @@ func (t *TypeState) flagCorrelation(at ssa.Instruction, path string) (bool, stri
 		}
 		ok, n := true, 0
 		for _, m := range t.Methods {
-			for _, st := range storesTo(m, flag) {
+			for _, st := range mayStores(m, flag) {
 				if c, isC := st.Val.(*ssa.Const); isC && c.Value != nil && c.Value.String() == "false" {
 					continue
 				}
@@ -635,7 +780,7 @@ func (t *TypeState) flagCorrelation(at ssa.Instruction, path string) (bool, stri
 				}
 			}
 			// no possibly-nil store to the path anywhere
-			for _, st := range storesTo(m, path) {
+			for _, st := range mayStores(m, path) {
 				if nn, _ := t.A.nonNil(st.Val, st, 1); !nn {
 					ok = false
 				}
@@ -653,62 +798,147 @@ func (t *TypeState) flagCorrelation(at ssa.Instruction, path string) (bool, stri
 // the only other writer resets the stack in the Enter of a rule that is not reachable from R, and
 // the walker pairs Enter(R)/Exit(R) like parentheses.
 func (t *TypeState) StackNonEmpty(at ssa.Instruction, path string) (bool, string) {
-	kind, rule := callbackOf(at.Parent())
+	if isHelper(at.Parent()) {
+		// the use is inside a helper (e.g. popStack): the claim must hold at every call from a callback
+		h := at.Parent()
+		recv := h.Params[0].Name()
+		if !strings.HasPrefix(path, recv+".") {
+			return false, ""
+		}
+		lpath := "l" + path[len(recv):]
+		sites, why := 0, ""
+		for _, m := range t.Methods {
+			if k, _ := callbackOf(m); k == "" {
+				continue
+			}
+			for ci, hs := range helperCalls(m) {
+				for _, x := range hs {
+					if x != h {
+						continue
+					}
+					sites++
+					ok, w := t.stackNonEmptyAt(m, ci.(ssa.Instruction), at, lpath)
+					if !ok {
+						return false, ""
+					}
+					why = w
+				}
+			}
+		}
+		if sites == 0 {
+			return false, ""
+		}
+		return true, why
+	}
+	return t.stackNonEmptyAt(at.Parent(), at, at, path)
+}
+
+// stackNonEmptyAt: cb is the Exit callback, site the instruction in cb where the use happens (the use itself or
+// the call of the helper that contains it), use the indexing instruction.
+func (t *TypeState) stackNonEmptyAt(cb *ssa.Function, site ssa.Instruction, use ssa.Instruction, path string) (bool, string) {
+	kind, rule := callbackOf(cb)
 	if kind != "Exit" {
+		if t.A.Debug {
+			println("stackNonEmptyAt fails at step 1")
+		}
 		return false, ""
 	}
 	enter := t.Methods["Enter"+strings.ToUpper(rule[:1])+rule[1:]]
 	if enter == nil {
+		if t.A.Debug {
+			println("stackNonEmptyAt fails at step 2")
+		}
 		return false, ""
+	}
+	isSelfAppend := func(st *ssa.Store) bool {
+		call, ok := st.Val.(*ssa.Call)
+		if !ok {
+			return false
+		}
+		b, isB := call.Common().Value.(*ssa.Builtin)
+		return isB && b.Name() == "append" && e5path.AccessPath(call.Common().Args[0]) == e5path.AccessPath(st.Addr)
 	}
 	// Enter(R): exactly one store to the stack, an append of one element to itself, guarded at most by `stack != nil`
 	pushes := 0
-	for _, st := range storesTo(enter, path) {
-		call, ok := st.Val.(*ssa.Call)
-		if !ok {
-			return false, ""
-		}
-		b, isB := call.Common().Value.(*ssa.Builtin)
-		if !isB || b.Name() != "append" || e5path.AccessPath(call.Common().Args[0]) != path {
+	for _, e := range effStores(enter, path) {
+		if !isSelfAppend(e.st) {
+			if t.A.Debug {
+				println("stackNonEmptyAt fails at step 3")
+			}
 			return false, ""
 		}
 		pushes++
-		for _, ce := range e5path.DominatingConds(st.Block()) {
+		conds := e5path.DominatingConds(e.at.Block())
+		if e.at != ssa.Instruction(e.st) {
+			conds = append(conds, e5path.DominatingConds(e.st.Block())...)
+		}
+		for _, ce := range conds {
 			bo, ok := ce.Cond.(*ssa.BinOp)
-			if ok && e5path.AccessPath(bo.X) == path {
+			if ok && strings.HasSuffix(e5path.AccessPath(bo.X), path[1:]) {
 				// the guard must always hold: the stack is non-nil at Enter(R)
 				if nn, _ := t.fieldAtEntry("Enter", rule, path); !nn {
+					if t.A.Debug {
+						println("stackNonEmptyAt fails at step 4")
+					}
 					return false, ""
 				}
 				continue
+			}
+			if t.A.Debug {
+				println("stackNonEmptyAt fails at step 5")
 			}
 			return false, "" // pushed only under some other condition
 		}
 	}
 	if pushes != 1 {
+		if t.A.Debug {
+			println("stackNonEmptyAt fails at step 6")
+		}
 		return false, ""
 	}
 	// Exit(R): exactly one store, a re-slice [:len-1]; no pop before the use
 	pops := 0
-	for _, st := range storesTo(at.Parent(), path) {
-		sl, ok := st.Val.(*ssa.Slice)
-		if !ok || e5path.AccessPath(sl.X) != path || sl.Low != nil {
+	for _, e := range effStores(cb, path) {
+		sl, ok := e.st.Val.(*ssa.Slice)
+		if !ok || e5path.AccessPath(sl.X) != e5path.AccessPath(e.st.Addr) || sl.Low != nil {
+			if t.A.Debug {
+				println("stackNonEmptyAt fails at step 7")
+			}
 			return false, ""
 		}
 		pops++
-		if st.Block().Dominates(at.Block()) && (st.Block() != at.Block() || instrIndex(st) < instrIndex(at)) {
-			return false, "" // the use comes after the pop
+		// the use must not come after the pop: compare inside the function both live in, else at the level of cb
+		if e.st.Parent() == use.Parent() {
+			if e.st.Block().Dominates(use.Block()) && (e.st.Block() != use.Block() || instrIndex(e.st) < instrIndex(use)) {
+				if t.A.Debug {
+					println("stackNonEmptyAt fails at step 8")
+				}
+				return false, ""
+			}
+		} else if e.at.Block().Dominates(site.Block()) && (e.at.Block() != site.Block() || instrIndex(e.at) < instrIndex(site)) {
+			if t.A.Debug {
+				println("stackNonEmptyAt fails at step 9")
+			}
+			return false, ""
 		}
 	}
 	if pops != 1 {
+		if t.A.Debug {
+			println("stackNonEmptyAt fails at step 10")
+		}
 		return false, ""
 	}
+	at := site
+	_ = at
 	// other writers: only resets to a fresh list in Enter of a rule from which R is reachable but not vice versa
 	for name, m := range t.Methods {
-		if m == enter || m == at.Parent() {
+		if m == enter || m == cb {
 			continue
 		}
-		for _, st := range storesTo(m, path) {
+		if k, _ := callbackOf(m); k == "" {
+			continue // helpers are accounted for in the callbacks that call them
+		}
+		for _, st := range mayStores(m, path) {
 			mk, mr := callbackOf(m)
 			fresh := false
 			if sl, ok := st.Val.(*ssa.Slice); ok {
